@@ -45,9 +45,39 @@ Proof. exact run_canary_gated. Qed.
 Print Assumptions C02_run_canary_gated.
 
 (* blue-green: the upgrade gate *)
-From RV Require Model.RolloutBG Proofs.RolloutBG.
+From RV Require Model.RolloutBG Corr.RolloutBG Proofs.RolloutBG.
 Theorem C02_bluegreen_upgrade_is_gated : forall sp u w br u' br' rq,
   RolloutBG.bg_upgrade sp u w br = RolloutSM.COut u' br' rq -> RolloutSM.su_state u' <> RolloutSM.su_state u ->
   RolloutSM.su_state u' = RolloutSM.StTraffic /\ Corr.RolloutSM.br_ready_for sp u w br = true.
 Proof. exact Proofs.RolloutBG.bg_upgrade_gated. Qed.
 Print Assumptions C02_bluegreen_upgrade_is_gated.
+
+(* blue-green: the whole step cursor.  gated_sub_bg differs from gated_sub in that Init falls through into the upgrade and
+   that NO pause is left without its duration having elapsed -- not even on a last step that already covers 100%, because
+   leaving the last blue-green pause is what routes everything to the new version and scales the old one down. *)
+Theorem C02_bluegreen_steps_are_gated :
+  forall sp st w br m u x y,
+  RolloutBG.reconcile_bg sp st w br = ROut m ->
+  rp_phase st = RpProgressing -> rs_deleting sp = false ->
+  rp_prog st = Some (PrInRolling, x, y) -> rp_sub st = Some u ->
+  (su_next u = next_index (nsteps sp) (su_idx u) \/ su_next u <= 0) ->
+  (sempty (su_hash u) = true \/ su_hash u = rs_hash sp) ->
+  wl_canary w = su_canary_rev u ->
+  forall s' v, o_status m = Some s' -> rp_sub s' = Some v ->
+  (su_idx v = su_idx u /\ su_state v = su_state u) \/
+  Corr.RolloutBG.gated_sub_bg sp (observed_sub w u) w (synced_br (observed_sub w u) br) v = true.
+Proof. exact Proofs.RolloutBG.bg_steps_are_gated. Qed.
+Print Assumptions C02_bluegreen_steps_are_gated.
+
+Theorem C02_bluegreen_manual_pause_waits :
+  forall sp st w br m u x y cur,
+  RolloutBG.reconcile_bg sp st w br = ROut m ->
+  rp_phase st = RpProgressing -> rs_deleting sp = false ->
+  rp_prog st = Some (PrInRolling, x, y) -> rp_sub st = Some u ->
+  (su_next u = next_index (nsteps sp) (su_idx u) \/ su_next u <= 0) ->
+  (sempty (su_hash u) = true \/ su_hash u = rs_hash sp) ->
+  wl_canary w = su_canary_rev u ->
+  su_state u = StPaused -> get_step sp (su_idx u) = Some cur -> sp_pause cur = None ->
+  forall s' v, o_status m = Some s' -> rp_sub s' = Some v -> su_idx v = su_idx u /\ su_state v = StPaused.
+Proof. exact Proofs.RolloutBG.bg_manual_pause_waits. Qed.
+Print Assumptions C02_bluegreen_manual_pause_waits.
